@@ -98,8 +98,10 @@ def _grow_job(tier, ts, nk, cnt, sym=False):
     if sym:
         d["VF_SYM_ORDER"] = None
         b += SYM_NOTE
+    # measured: CaDiCaL decides the load-growth query with 4 keys ~2x faster than MiniSat (206-790 s -> 130-245 s); it is
+    # slower on the probe-exhaustion growth queries and on the scripts, which stay on MiniSat
     return _job("C05.grow.T%d.N%d.C%d" % (ts, nk, cnt), "l0/map_grow.c", d, [HASH], tier,
-                SYM_STATE + ["key", "value"], b, 2 * ts + 6)
+                SYM_STATE + ["key", "value"], b, 2 * ts + 6, backend="cadical" if (nk >= 4 and "EXPECT_GROWN" in d) else "minisat")
 
 
 def _script_job(tier, L, keymode=None):
